@@ -67,6 +67,11 @@ type Script struct {
 	Details bool   `json:"details,omitempty"` // attach the two fixed detail messages
 	Replies int    `json:"replies"`           // replies sent before returning (streaming); unary: 1 on success
 	WaitCtx bool   `json:"wait_ctx,omitempty"`
+	// MDAfterCtx (with WaitCtx): the Hdr / Trl calls are made after the call's
+	// context is done instead of at entry.
+	MDAfterCtx bool `json:"md_after_ctx,omitempty"`
+	// PauseMs: the handler stays quiet this long before it returns its status.
+	PauseMs int `json:"pause_ms,omitempty"`
 	// metadata operations (C14)
 	Hdr     []KV `json:"hdr,omitempty"`      // header metadata set before the first reply
 	SendHdr bool `json:"send_hdr,omitempty"` // use SendHeader instead of SetHeader for Hdr
@@ -242,6 +247,8 @@ func muxOptions(opt string) ([]larking.MuxOption, error) {
 		return []larking.MuxOption{larking.MaxSendMessageSizeOption(256)}, nil
 	case "recv64":
 		return []larking.MuxOption{larking.MaxReceiveMessageSizeOption(64)}, nil
+	case "conn100ms":
+		return []larking.MuxOption{larking.ConnectionTimeoutOption(100 * time.Millisecond)}, nil
 	}
 	return nil, fmt.Errorf("unknown mux option set %q", opt)
 }
@@ -549,12 +556,23 @@ func (e *Env) unary(ctx context.Context, md protoreflect.MethodDescriptor, in pr
 	inMD, _ := metadata.FromIncomingContext(ctx)
 	e.record(id, func(r *Rec) { r.Ran = true; r.MD = inMD.Copy() })
 	defer e.record(id, func(r *Rec) { r.Done = true })
-	e.headerOps(id, sc,
-		func(m metadata.MD) error { return grpc.SetHeader(ctx, m) },
-		func(m metadata.MD) error { return grpc.SendHeader(ctx, m) },
-		func(m metadata.MD) error { return grpc.SetTrailer(ctx, m) })
+	mdOps := func() {
+		e.headerOps(id, sc,
+			func(m metadata.MD) error { return grpc.SetHeader(ctx, m) },
+			func(m metadata.MD) error { return grpc.SendHeader(ctx, m) },
+			func(m metadata.MD) error { return grpc.SetTrailer(ctx, m) })
+	}
+	if !sc.MDAfterCtx {
+		mdOps()
+	}
 	if sc.WaitCtx {
 		waitCtx(ctx)
+	}
+	if sc.MDAfterCtx {
+		mdOps()
+	}
+	if sc.PauseMs > 0 {
+		time.Sleep(time.Duration(sc.PauseMs) * time.Millisecond)
 	}
 	preOp(sc,
 		func(m metadata.MD) error { return grpc.SetHeader(ctx, m) },
@@ -593,7 +611,12 @@ func (e *Env) stream(md protoreflect.MethodDescriptor, ss grpc.ServerStream) err
 	if sc.DL != "" {
 		return e.download(ss, id, sc)
 	}
-	e.headerOps(id, sc, ss.SetHeader, ss.SendHeader, func(m metadata.MD) error { ss.SetTrailer(m); return nil })
+	mdOps := func() {
+		e.headerOps(id, sc, ss.SetHeader, ss.SendHeader, func(m metadata.MD) error { ss.SetTrailer(m); return nil })
+	}
+	if !sc.MDAfterCtx {
+		mdOps()
+	}
 	for i := 0; i < sc.Replies; i++ {
 		if err := ss.SendMsg(newChunk(id, int32(i+1))); err != nil {
 			e.record(id, func(r *Rec) { r.OpErrs = append(r.OpErrs, "SendMsg: "+err.Error()) })
@@ -618,6 +641,12 @@ func (e *Env) stream(md protoreflect.MethodDescriptor, ss grpc.ServerStream) err
 	}
 	if sc.WaitCtx {
 		waitCtx(ss.Context())
+	}
+	if sc.MDAfterCtx {
+		mdOps()
+	}
+	if sc.PauseMs > 0 {
+		time.Sleep(time.Duration(sc.PauseMs) * time.Millisecond)
 	}
 	preOp(sc, ss.SetHeader, ss.SendHeader, func(m metadata.MD) error { ss.SetTrailer(m); return nil })
 	if sc.Code != 0 {
